@@ -321,6 +321,23 @@ func (e *effEngine) evalExpr(cx *effCtx, ex ast.Expr) ([]string, bool) {
 			if tv, ok := cx.info.Types[x]; ok && isMonadType(tv.Type) {
 				return []string{"F:" + x.Sel.Name}, true
 			}
+			// a method value of the same receiver used as a continuation (FlatMap(a, r.Ap)): what it consults when it
+			// runs — its receiver fields; its own parameters are the values it is handed
+			if sel := cx.info.Selections[x]; sel != nil && sel.Kind() == types.MethodVal {
+				if m, ok := sel.Obj().(*types.Func); ok && m.Pkg() != nil && strings.HasPrefix(m.Pkg().Path(), core.ModPath) {
+					sum, ok := e.summary(m)
+					if !ok {
+						return nil, false
+					}
+					var out []string
+					for _, k := range sum {
+						if strings.HasPrefix(k, "F:") {
+							out = append(out, k)
+						}
+					}
+					return out, true
+				}
+			}
 		}
 		if tv, ok := cx.info.Types[x]; ok && isMonadType(tv.Type) {
 			if _, isPkgVar := cx.info.Uses[x.Sel].(*types.Var); isPkgVar {
@@ -473,7 +490,16 @@ func (e *effEngine) subst(cx *effCtx, callee *types.Func, sum []string, call *as
 					continue
 				}
 			}
-			// a named function / method value / composition used as call-back: consults nothing of ours
+			// a method value of our own receiver used as call-back (FlatMap(a, r.Ap)) consults the receiver fields its
+			// method consults, when it runs
+			if se, ok := a.(*ast.SelectorExpr); ok && cx.recv != nil && objOf(cx.info, se.X) == cx.recv {
+				if v, ok := e.evalExpr(cx, se); ok {
+					out = append(out, v...)
+					continue
+				}
+				return nil, false
+			}
+			// a named function / composition used as call-back: consults nothing of ours
 		case "F:":
 			if recvExpr == nil || cx.recv == nil || objOf(cx.info, recvExpr) != cx.recv {
 				return nil, false
@@ -493,7 +519,7 @@ func (e *effEngine) subst(cx *effCtx, callee *types.Func, sum []string, call *as
 	return out, true
 }
 
-func EffOrder(c *core.Ctx, rule string, pkgs []*packages.Package) {
+func EffOrder(c *core.Ctx, rule string, pkgs []*packages.Package, floors ...int) {
 	c.Rule(rule, "effect order: (O1) a branch-free combinator consults its monadic parameters and suppliers in declaration order; (O2) the methods of one builder type agree pairwise on the relative order in which the receiver's monadic fields are consulted, and consult them before their own arguments — the failure of the first failing operand in left-to-right order is the one reported")
 	e := &effEngine{c: c, sums: map[*types.Func][]string{}, known: map[*types.Func]bool{}, busy: map[*types.Func]bool{}, evaluated: map[*types.Func]bool{}}
 	nSum, nSkip := 0, 0
@@ -627,5 +653,9 @@ func EffOrder(c *core.Ctx, rule string, pkgs []*packages.Package) {
 		}
 	}
 	c.Note(itoa(nSkip) + " functions outside the effect-order fragment (listed as skipped)")
-	c.Floor(rule, "combinators with an effect-order summary", nSum, 300)
+	floor := 300
+	if len(floors) > 0 {
+		floor = floors[0]
+	}
+	c.Floor(rule, "combinators with an effect-order summary", nSum, floor)
 }
